@@ -194,7 +194,11 @@ def rule_keyid(ctx):
             def mentions(entry):
                 return entry[0] is b.node and any(a_[1] == at[1] for a_, _ in cond_atoms(entry[2]))
 
-            acts = [e for e in w.events if e.kind in ACTIONS and any(positive(en) for en in e.path)]
+            def _decision_temp(e):
+                # binding a local to the truth value of a comparison (a flag, or the normaliser's own temporary for a helper's result)
+                # does nothing to the sketch: what is then done under that flag is what counts
+                return e.kind == "assign" and (isinstance(getattr(e, "value", None), Bool) or str(getattr(e, "name", "")).startswith(("hk__", "hoisted__", "ret__")))
+            acts = [e for e in w.events if e.kind in ACTIONS and not _decision_temp(e) and any(positive(en) for en in e.path)]
             # a decision in which the byte comparison is neither a conjunct nor a negated disjunct cannot be read
             unreadable = [e for e in w.events if e.kind in ACTIONS and any(mentions(en) and not positive(en)
                           and not any(x[0] == "not" and x[1][0] == "atom" and x[1][1] == at[1] for x in _disjuncts(en[2])) for en in e.path)]
@@ -202,8 +206,18 @@ def rule_keyid(ctx):
                 ctx.ob("keyid", k, b.node, cons, goal, None, "the key comparison is not a top-level conjunct of the decision or of its negation")
                 continue
             res = []
+            def length_decided(x):
+                # the stored length was compared with the probe's on this path, either way: a byte match of unequal lengths that is
+                # explicitly routed to the mismatch handling has consulted both parts of the identity (what each branch then does is bm-table's)
+                if length_eq(x):
+                    return True
+                if x[0] == "ne":
+                    return length_eq(("eq",) + tuple(x[1:]))
+                if x[0] == "not":
+                    return length_eq(x[1])
+                return False
             for e in acts:
-                found = next((x for en in e.path for x in conjuncts(en[2]) if length_eq(x)), None)
+                found = next((x for en in e.path for x in conjuncts(en[2]) if length_decided(x)), None)
                 res.append((found is not None, show_cond(found) if found else
                             "stored key bytes are compared without the stored length: keys differing only in length / trailing NULs are identified, "
                             "and an all-NUL key matches an empty cell", fact_strs(e)))
@@ -244,12 +258,25 @@ def rule_bm_table(ctx):
             evs = [x for x in on_path(w.events, le) if x.loops == le.loops]
             # polarity of the match on this path
             pol = None
+            lent_names = {p_ for p_, s_ in pa.items() if s_ & {"key_lens", "other.key_lens"}}
             for (s_node, taken, cc) in le.path:
                 for b, at, apol, cells, ops in atoms:
                     if b.node is s_node:
                         mc, positive = match_cond_of(b, at)
                         if mc is not None:
                             pol = (taken == positive)
+                            # the stored length may be compared in a decision of its own (a helper that returns early on a byte
+                            # mismatch): a byte match whose length test failed on this path is a mismatch
+                            if pol and not any(x[0] == "eq" and any(t[0] == "cell" and t[1] in lent_names for t in x[1].terms()) for x in conjuncts(mc)):
+                                for (_n2, _t2, c2) in le.path:
+                                    for x in conjuncts(c2):
+                                        y, neg = x, False
+                                        if y[0] == "not":
+                                            y, neg = y[1], True
+                                        if y[0] in ("eq", "ne") and isinstance(y[1], Lin) and any(t[0] == "cell" and t[1] in lent_names for t in y[1].terms()):
+                                            is_eq = (y[0] == "eq") != neg
+                                            if not is_eq:
+                                                pol = False
             cst = [x for x in evs if x.kind == "store" and x.arr.name == cnt]
             kst = [x for x in evs if x.kind in ("store", "slicestore") and x.arr.name == keyt]
             lst = [x for x in evs if x.kind == "store" and x.arr.name == lent]
@@ -319,6 +346,14 @@ def rule_bm_table(ctx):
         # replacement writes the incoming key and its length (not something else)
         from .flow import _vkey
         res = []
+        # the probe's length, per key comparison: read off whichever path through that comparison goes on to compare the lengths
+        x_by_branch = {}
+        for le in lends:
+            evs = [x for x in on_path(w.events, le) if x.loops == le.loops]
+            for a in [a for a in atoms if a[0] in evs]:
+                xx = _probe_length(F, k, a[0], a[1], a[3], le.path)
+                if xx is not None:
+                    x_by_branch.setdefault(id(a[0]), xx)
         for le in lends:
             evs = [x for x in on_path(w.events, le) if x.loops == le.loops]
             kst = [x for x in evs if x.kind in ("store", "slicestore") and x.arr.name == keyt]
@@ -332,7 +367,9 @@ def rule_bm_table(ctx):
             b0, at0, pol0, cells0, ops0 = onp[-1]
             probe = [o for o in ops0 if not (isinstance(o, ArrSlice) and o.arr.name == keyt)]
             okk = bool(kst) and bool(probe) and all(_same_source(x.value, probe[0]) and _whole_slot(x.idx) and _whole_value(x.value) for x in kst)
-            X = _probe_length(F, k, b0, at0, cells0)
+            X = _probe_length(F, k, b0, at0, cells0, le.path)
+            if X is None:
+                X = x_by_branch.get(id(b0))
             okl = bool(lst) and X is not None and all(isinstance(x.value, Num) and x.value.lin == X for x in lst)
             res.append((bool(okk and okl), "the incoming key's bytes and length are stored" if okk and okl else
                         ("bytes written on replacement are not the whole incoming key slot (a partial copy leaves bytes of the evicted key behind)" if not okk else
@@ -363,16 +400,25 @@ def _same_source(v, probe):
     return False
 
 
-def _probe_length(F, k, b, at, cells):
-    """The Lin the stored length is compared with in the match condition (the incoming key's length)."""
+def _probe_length(F, k, b, at, cells, path=()):
+    """The Lin the stored length is compared with in the match condition (the incoming key's length); when the length is compared in
+    a decision of its own, that decision is looked up on `path`."""
     pa = F.param_attr().get(k.key, {})
     own = {p for p, s in pa.items() if "key_lens" in s}
     mc, _ = match_cond_of(b, at)
     if mc is None:
         return None
     idxkey = tuple(i.lin.key() for i in cells[0].index_nums())
-    for x in conjuncts(mc):
-        if x[0] != "eq":
+    cands = list(conjuncts(mc))
+    for (_n, _t, cc) in path:
+        for x in conjuncts(cc):
+            if x[0] == "not":
+                x = x[1]
+            if x[0] == "ne":
+                x = ("eq",) + tuple(x[1:])
+            cands.append(x)
+    for x in cands:
+        if x[0] != "eq" or not isinstance(x[1], Lin):
             continue
         lin = x[1]
         for t, coef in lin.c.items():
